@@ -142,13 +142,15 @@ def sync_history(ctx, hseed, nsteps):
             if e.terminal:
                 continue
             d = {} if rnd.random() < 0.5 else {"k": rnd.randint(0, 3)}
-            if rnd.random() < 0.12:
+            if rnd.random() < 0.2:
                 # values a dictionary of metadata may well hold that are no python literals: the wrapper is not empty, that is
                 # all value() has to know about it
                 import collections
                 import pathlib
 
-                d = rnd.choice([{"file": pathlib.PurePosixPath("a.root")}, collections.OrderedDict(a=rnd.randint(0, 3)), {"runs": range(rnd.randint(1, 4))}])
+                d = rnd.choice([{"file": pathlib.PurePosixPath("a.root")}, collections.OrderedDict(a=rnd.randint(0, 3)), {"runs": range(rnd.randint(1, 4))},
+                                # ... or that are literals no stage lambda could hold (None, Ellipsis): metadata is not a stage lambda
+                                {"cache": None}, {"cache": None, "n": [1, None, (None,)]}, {"rest": ...}])
                 hist.mode_counts["metadata-value-no-literal"] = hist.mode_counts.get("metadata-value-no-literal", 0) + 1
             hist.metadata(e, d)
             kinds.append("M")
